@@ -3,7 +3,7 @@
     merged extension, readable without an index. *)
 From Coq Require Import List Bool Arith QArith Lia.
 From DV Require Import Common.Res Common.Str Ext.Types Ext.Classes Ext.Seq Ext.Model Ext.Spec
-     Ext.ProofsCanonSubset Ext.ProofsMergeDen Ext.ProofsMergeFrame Ext.ProofsMerge Ext.ProofsCanonMerge.
+     Ext.ProofsCanonSubset Ext.ProofsMergeDen Ext.ProofsMergeFrame Ext.ProofsMergeKey Ext.ProofsMerge Ext.ProofsCanonMerge.
 Import ListNotations.
 Local Open Scope nat_scope.
 
@@ -17,25 +17,42 @@ Section WithV.
     rewrite nth_overflow by exact Hi. exact H0.
   Qed.
 
+  Lemma set_coord_0_in ax (d p : pos) N :
+    coord ax d = 1 -> in_dims (set_coord ax d N) p -> in_dims d (set_coord ax p 0).
+  Proof.
+    destruct d as [[a b] c], p as [[s t] v]. destruct ax; cbn [coord set_coord in_dims]; intros -> H; lia.
+  Qed.
+
   Theorem merge_const_readable es e0 dim a sd ax r k v :
     inputs_ok es e0 sd -> (forall x, In x es -> nondegenerate x) ->
     axis_of (out_sdim sd e0) dim = Some ax -> (3 <= dim -> out_sdim sd e0 <> None) ->
     from_sequence veqb vnone es dim a sd = Ok r -> trailing1b (shape (hdr_of r)) = false ->
     v <> vnone ->
-    (forall x q, In x es -> den_in vnone (hdr_of r) x k q = v) ->
+    (forall x q, In x es -> in_dims (dims (hdr_of x)) q -> den_in vnone (hdr_of r) x k q = v) ->
     lookup_e r k = Some (GConst, [v]) /\ getitem r k = Ok v.
   Proof.
     intros Hin Hnd Hax Hn3 H Htr Hv Hall. pose proof Hin as [Hhd [Hlen Hxs]].
     destruct es as [|e0' rest]; [discriminate|]. cbn [hd_error] in Hhd. injection Hhd as ->.
-    assert (Hcan : canonical_mod_none vnone r).
-    { assert (H1 : 1 <= length rest) by (cbn [length] in Hlen; lia).
-      assert (H2 : forall e, In e (e0 :: rest) -> valid e /\ nondegenerate e /\ shape (hdr_of e) = shape (hdr_of e0) /\
-                                                  sdim (hdr_of e) = sdim_res e0 sd).
-      { intros e He. destruct (Hxs e He) as [Hv' [Hsh Hsd]].
-        split; [exact Hv'|]. split; [apply Hnd; exact He|]. split; [exact Hsh | exact Hsd]. }
-      exact (merge_canonical_axis veqb vnone veqb_spec (e0 :: rest) e0 rest dim a sd ax r eq_refl H1 H2 Hax Hn3 H). }
+    assert (H1 : 1 <= length rest) by (cbn [length] in Hlen; lia).
+    assert (H2 : forall e, In e (e0 :: rest) -> valid e /\ nondegenerate e /\ shape (hdr_of e) = shape (hdr_of e0) /\
+                                                sdim (hdr_of e) = sdim_res e0 sd).
+    { intros e He. destruct (Hxs e He) as [Hv' [Hsh Hsd]].
+      split; [exact Hv'|]. split; [apply Hnd; exact He|]. split; [exact Hsh | exact Hsd]. }
+    pose proof (merge_canonical_axis veqb vnone veqb_spec (e0 :: rest) e0 rest dim a sd ax r eq_refl H1 H2 Hax Hn3 H) as Hcan.
     destruct (merge_den veqb vnone veqb_spec (e0 :: rest) e0 dim a sd r ax Hin H Hax Hn3 Htr) as [_ [_ [_ [_ Hden]]]].
+    assert (Hv0 : valid e0) by (apply H2; left; reflexivity).
+    destruct (from_sequence_keys veqb vnone (e0 :: rest) e0 rest dim a sd r eq_refl H1 Hv0 H)
+      as [hfull [ents [Er [F [_ [Hsd _]]]]]].
+    change (out_sdim sd e0) with (sdim_res e0 sd) in Hax, Hn3. rewrite <- Hsd in Hax, Hn3.
+    destruct (frame_dims hfull _ dim _ ax F Hax Hn3) as [Hc1 [Hdin Hdm]].
+    assert (Hdr : dims (hdr_of r) = set_coord ax (ProofsMergeKey.d_in hfull (shape (hdr_of e0))) (S (length rest))).
+    { rewrite Er. cbn [hdr_of]. rewrite <- (Hdm (S (length rest))) by lia. rewrite (with_dim_full hfull _ dim _ F). reflexivity. }
     apply (const_readable vnone r k v Hcan Hv).
-    intros p Hp. rewrite (Hden k p Hp). apply Hall. apply nth_in_or_default. left. reflexivity.
+    intros p Hp. rewrite (Hden k p Hp).
+    assert (Hx : In (nth (coord ax p) (e0 :: rest) e0) (e0 :: rest)) by (apply nth_in_or_default; left; reflexivity).
+    apply Hall; [exact Hx|].
+    destruct (H2 _ Hx) as [_ [_ [Hsh Hsx]]].
+    rewrite (Hdin (hdr_of (nth (coord ax p) (e0 :: rest) e0))) by (split; [exact Hsh | rewrite Hsx, Hsd; reflexivity]).
+    apply (set_coord_0_in ax _ p (S (length rest)) Hc1). rewrite <- Hdr. exact Hp.
   Qed.
 End WithV.
